@@ -11,8 +11,8 @@ import (
 )
 
 // bound of the progress check: sweeps of the synchronous suffix. The unchanged
-// tree needed at most 40 (measured over >3M schedules, all n); bound = 20x.
-const maxSuffixSweeps = 800
+// tree needed at most 42 (measured over 1.5M + 3x200k schedules, all n); bound > 20x.
+const maxSuffixSweeps = 1000
 
 var tplNames = []string{"random", "T1-stale-polka-vs-lock", "T2-commit-seen-by-one", "T3-split-at-quorum-edge+forged-valid-round"}
 
@@ -232,7 +232,7 @@ func runCase(r *lib.Run, idx int, maxRound, maxSweeps *atomic.Int64) {
 func TestC12(t *testing.T) {
 	debug.SetGCPercent(400) // many small short-lived allocations per schedule; heap stays tiny
 	r := lib.Start("C12", "exploration")
-	n := r.N(150000, 6000000)
+	n := r.N(200000, 6000000)
 	var maxRound, maxSweeps atomic.Int64
 	r.Cases(n, 0, func(idx int) {
 		// Watchdog (never a verdict): a state machine that does not return (e.g.
@@ -263,6 +263,6 @@ func TestC12(t *testing.T) {
 		"byzantine injections from a finite alphabet (values seen/own/invalid, rounds -1..max+3, valid rounds -2..r+1, non-proposer proposals, unknown sender, "+
 		"different content to different peers, quorum-completing votes for a single target) or by one of three attack templates followed by the adversary; then a "+
 		"synchronous suffix. Online oracles over every action returned by Process*: agreement, validity (proposer, Valid, delivered), no equivocation, lock rule "+
-		"against the messages the harness itself delivered, thresholds 3P>=2N / 3P>=N over distinct delivered senders, bounded progress (<= 800 sweeps) after the "+
+		"against the messages the harness itself delivered, thresholds 3P>=2N / 3P>=N over distinct delivered senders, bounded progress (<= 1000 sweeps) after the "+
 		"suffix, except for validators that hold the losing first proposal of an equivocating proposer for the decision round or that already hold proposal + precommit quorum of the decision round (Juno re-evaluates line 49 only for the current / just-received round). distinct = distinct schedule hashes", 1000)
 }
